@@ -87,7 +87,7 @@ fn run(ctx: &Arc<Ctx>) {
     }
     for len in [1554usize, 1555, 1556, 1557, 1558, 1559, 2000, 3115, 3116, 3117, 3200] {
         for fill in [b'1', b'A', 0xE9u8] {
-            for list in [default_mask(), ALL_MASK, 1 << 23, (1 << 23) | (1 << 22)] {
+            for list in [default_mask(), ALL_MASK, 1 << 23, (1 << 23) | (1 << 22), 0] {
                 fixed.push(EncCase { data: vec![fill; len], list, modes: 63, macros: true, fnc1: false, eci: None, stratum: "fixed-long" });
             }
         }
